@@ -14,6 +14,43 @@ func checkC19(r *Run) {
 	r.Explain = "(R2+) the live object returned by wallets.get never escapes: every use is a nil test or a read-only method call, it is never returned nor handed to other code; (R4+) the fingerprint of a created wallet is registered under no other condition than being non-empty (the condition of the conflict test), and unload / bulk load treat the map symmetrically; C19: (R1) typestate saved(w): every Service method that publishes a wallet into the in-memory set (wallets.set) does so only on paths where that same wallet value was saved to the wallet directory without error or is a temporary wallet (all-paths rule); a wallet added before saving is removed again on the failing edge; (R2) service methods mutate clones only: what they publish derives from getWallet (a Clone) or a freshly created wallet, and values obtained directly from the set are used read-only; (R3) a failed operation changes neither view: after wallets.set / the fingerprint update no error return is reachable (UnloadWallet is in-memory by design); (R4) a new wallet is refused when its fingerprint is already registered, before it is added; (R5) every access to the wallet set and the fingerprint map happens under the service mutex."
 	r.NotDec = "equality with a freshly started service for a concrete operation sequence; file-system failures between Save and set"
 	ruleRecoverWalletOptions(r, "C19-R6")
+	// what is published is exactly what was saved: between Save(w) and wallets.set(w) the wallet is not modified
+	savedRO := map[string]bool{"Filename": true, "Clone": true, "IsTemp": true, "Fingerprint": true, "Label": true, "Type": true, "IsEncrypted": true, "Timestamp": true, "EntriesLen": true, "GetEntries": true, "Coin": true, "Seed": true}
+	for _, fn := range r.P.ModFns {
+		if !strings.HasPrefix(FnName(fn), "wallet.Service.") {
+			continue
+		}
+		ff := r.P.Facts(fn)
+		for _, sv := range r.CallSites(fn, "wallet.Save") {
+			w := r.argTerm(sv, 0)
+			for _, st := range r.CallSites(fn, "wallet.Wallets.set") {
+				if r.argTerm(st, 1) != w {
+					continue
+				}
+				reach := ff.reachFrom(sv.Block(), nil)
+				for _, b := range fn.Blocks {
+					if !reach[b] || !ff.reachFrom(b, nil)[st.Block()] {
+						continue
+					}
+					for _, in := range b.Instrs {
+						ci, ok := in.(ssa.CallInstruction)
+						if !ok || !ci.Common().IsInvoke() || savedRO[ci.Common().Method.Name()] {
+							continue
+						}
+						if ff.Term(ci.Common().Value) != w {
+							continue
+						}
+						// same block as Save: only instructions after it count
+						if b == sv.Block() && !(posAfter(b, in, sv)) {
+							continue
+						}
+						r.Check("C19-R1", FnName(fn)+": the wallet is not modified between Save and publication ("+ci.Common().Method.Name()+")", r.P.Pos(in.Pos()), false,
+							"the object installed in memory differs from the file that was written: a freshly started service loads another wallet")
+					}
+				}
+			}
+		}
+	}
 	if nCl, shallow, spos := shallowClones(r.P, "wallet.", "wallet/"); true {
 		r.Units["clone methods inspected"] = nCl
 		for i, s := range shallow {
@@ -299,4 +336,18 @@ func checkC19(r *Run) {
 		r.Check("C19-R5", FnName(lr.Fn)+" accesses Service."+lr.Field+" under the mutex", r.P.Pos(lr.Pos), ok, why)
 	}
 	r.Min("C19-R5", 12)
+}
+
+// posAfter: instruction a comes after instruction b inside block blk.
+func posAfter(blk *ssa.BasicBlock, a, b ssa.Instruction) bool {
+	ia, ib := -1, -1
+	for i, in := range blk.Instrs {
+		if in == a {
+			ia = i
+		}
+		if in == b {
+			ib = i
+		}
+	}
+	return ia > ib && ib >= 0
 }
